@@ -73,6 +73,7 @@ pub struct MemSender {
 	pub faults: Arc<Faults>,
 	pub wire: Arc<Mutex<Vec<Out>>>,
 	pub idnum: fn(&Value) -> i64,
+	pub string_ids: bool,
 	pub turns: std::sync::atomic::AtomicU64,
 }
 impl TransportSenderT for MemSender {
@@ -89,7 +90,7 @@ impl TransportSenderT for MemSender {
 					let ns: Vec<i64> = o.ids.iter().map(idn).collect();
 					self.tracer.ev(json!({"ev": "WireOut", "k": "batch", "lo": ns.iter().min(), "hi": ns.iter().max().map(|m| m + 1), "ids": ns}));
 				}
-				"unsub" => self.tracer.ev(json!({"ev": "WireOut", "k": "unsub", "id": idn(&o.ids[0]), "sub": o.sub.as_ref().map(|s| idn(s))})),
+				"unsub" => self.tracer.ev(json!({"ev": "WireOut", "k": "unsub", "id": idn(&o.ids[0]), "sub": o.sub.as_ref().map(|s| sub_as_num(s, self.string_ids))})),
 				k => self.tracer.ev(json!({"ev": "WireOut", "k": k, "id": idn(&o.ids[0])})),
 			}
 			self.wire.lock().push(o);
@@ -164,6 +165,14 @@ pub fn u64_as_num(x: u64) -> i64 {
 pub fn num_as_u64(n: i64) -> u64 {
 	HUGE.iter().find(|(_, m)| *m == n).map(|(u, _)| *u).unwrap_or(n as u64)
 }
+/// Subscription ids as the spec sees them: the peer hands out 1, 2 in the JSON type that matches the request-id format of the
+/// scenario (the "native" type); 101, 102 stand for the SAME digits in the OTHER JSON type ("1" vs 1) - different ids, by the
+/// rules of JSON, that a client must not confuse.
+pub fn sub_as_num(v: &Value, string_ids: bool) -> i64 {
+	let base = id_as_num(v);
+	if v.is_string() == string_ids || base < 0 { base } else { 100 + base }
+}
+
 pub fn id_as_num(v: &Value) -> i64 {
 	match v {
 		Value::Number(n) => n.as_u64().map(u64_as_num).unwrap_or(-1),
@@ -186,7 +195,7 @@ pub fn build(max_queue: usize, buf_cap: usize, string_ids: bool, timeout: Durati
 	let faults = Arc::new(Faults::default());
 	let wire = Arc::new(Mutex::new(vec![]));
 	let (peer_tx, rx) = mpsc::unbounded_channel();
-	let sender = MemSender { tracer: tracer.clone(), faults: faults.clone(), wire: wire.clone(), idnum: id_as_num, turns: std::sync::atomic::AtomicU64::new(seed) };
+	let sender = MemSender { tracer: tracer.clone(), faults: faults.clone(), wire: wire.clone(), idnum: id_as_num, string_ids, turns: std::sync::atomic::AtomicU64::new(seed) };
 	let receiver = MemReceiver { tracer: tracer.clone(), rx };
 	let client = ClientBuilder::default()
 		.max_concurrent_requests(max_queue)
@@ -251,6 +260,7 @@ pub fn start_op_abandonable(
 	let hs = h.to_string();
 	let kind = kind.to_string();
 	let slot = slots.get(h).cloned();
+	let sids = rig.id_kind_str;
 	tracer.ev(json!({"ev": "FeStart", "h": hs}));
 	let (ab_tx, mut ab_rx) = tokio::sync::oneshot::channel::<()>();
 	let t2 = tracer.clone();
@@ -270,7 +280,7 @@ pub fn start_op_abandonable(
 						_ => Value::Null,
 					};
 					*slot.as_ref().unwrap().lock() = Some(s);
-					json!({"k": "sub", "sub": id_as_num(&sid)})
+					json!({"k": "sub", "sub": sub_as_num(&sid, sids)})
 				}
 				Err(e) => err_class(&e),
 			},
